@@ -66,6 +66,9 @@ type KeyCfg struct {
 	ECSetter                                   bool // signing setter key is ECDSA
 	SpyEnc                                     bool // wrap the encryption setter key in a spy (it can then sign but not decrypt)
 	Jitter                                     bool // spies yield/sleep in Public()
+	// SharedField: the two deprecated fields hold one and the same store object (the application keeps one key
+	// pair for both purposes and assigns it twice); only meaningful with EncField and SignField.
+	SharedField bool
 }
 
 func (k KeyCfg) String() string {
@@ -77,7 +80,11 @@ func (k KeyCfg) String() string {
 		p = append(p, "encS")
 	}
 	if k.SignField {
-		p = append(p, "signF")
+		if k.SharedField && k.EncField {
+			p = append(p, "signF(=encF)")
+		} else {
+			p = append(p, "signF")
+		}
 	}
 	if k.SignSetter {
 		if k.ECSetter {
@@ -97,6 +104,11 @@ func AllKeyCfgs() []KeyCfg {
 		out = append(out, k)
 		if k.SignSetter {
 			k.ECSetter = true
+			out = append(out, k)
+			k.ECSetter = false
+		}
+		if k.EncField && k.SignField {
+			k.SharedField = true
 			out = append(out, k)
 		}
 	}
@@ -141,6 +153,9 @@ func NewKeyedSP(now time.Time, cfg KeyCfg, store ...*sim.Cert) *KeyedSP {
 		c := sim.Wide(sim.K("spsign"), now)
 		k.Certs["signF"] = c
 		k.Fields["signF"] = &RSAKeyStore{C: c}
+		if cfg.SharedField && cfg.EncField {
+			k.Certs["signF"], k.Fields["signF"] = k.Certs["encF"], k.Fields["encF"]
+		}
 		sp.SPSigningKeyStore = k.Fields["signF"]
 	}
 	if cfg.SignSetter {
